@@ -2,6 +2,7 @@
 
 #include <algorithm>
 #include <iostream>
+#include <limits>
 
 #include <boost/math/quadrature/gauss.hpp>
 #include <boost/math/quadrature/gauss_kronrod.hpp>
@@ -421,8 +422,10 @@ double Integrate_MC_Vegas(std::function<double(std::vector<double>&, const doubl
 			}
 			f2b = sqrt(f2b * npg);
 			f2b = (f2b - fb) * (f2b + fb);
+			// Lower bound of the variance estimate of this cell, relative to the scale of the integrand in the cell: an absolute
+			// bound competes with the true variances of the later iterations whenever the integrand itself is small.
 			if(f2b <= 0.0)
-				f2b = TINY;
+				f2b = (fb != 0.0) ? std::max(TINY * fb * fb, std::numeric_limits<double>::min()) : TINY;
 			ti += fb;
 			tsi += f2b;
 			if(mds < 0)
